@@ -441,9 +441,39 @@ ZONES = {
 UNITS = {"a": "a", "1": "1", "_": "_", "-": "-", ":": ":", "SP_a": " a", "=": "=", "a=": "a=", "QUOTE": '"',
          "APOS": "'", "x": "x", "|": "|", "&": "&", ";": ";", "NONBMP": "\U0001F600", "/": "/"}
 ZONE_SIZES = (8, 16, 24, 32, 64)
+# spec: DigitZones — (prefix, suffix) around a decimal number whose digits are pumped
+DIGIT_ZONES = {
+    "pages-to": ('<pages index="x" from=1 to=', " />"),
+    "pages-from": ('<pages index="x" from=', " to=3 />"),
+    "gallery-perrow": ("<gallery perrow=", ">\nImage:a.png|a\n</gallery>"),
+    "gallery-widths": ("<gallery widths=", ">\nImage:a.png|a\n</gallery>"),
+    "gallery-heights": ("<gallery heights=", ">\nImage:a.png|a\n</gallery>"),
+    "source-start": ("<source lang=c line start=", ">x</source>"),
+    "ol-start": ("<ol start=", "><li>a</li></ol>"),
+    "li-value": ("<ol><li value=", ">a</li></ol>"),
+    "cell-colspan": ("{|\n| colspan=", " | a\n|}\n"),
+    "cell-rowspan": ("{|\n| rowspan=", " | a\n|}\n"),
+    "td-colspan": ("<table><tr><td colspan=", ">a</td></tr></table>"),
+    "imagemap-coordinate": ("<imagemap>\nImage:a.png\nrect 0 0 ", " 10 [[a]]\n</imagemap>"),
+    "image-px": ("[[Image:a.png|", "px]]"),
+    "image-upright": ("[[Image:a.png|upright=", "]]"),
+    "padleft-width": ("{{padleft:x|", "}}"),
+    "entity-number": ("&#", ";"),
+    "formatnum": ("{{formatnum:", "}}"),
+    "expr-operand": ("{{#expr:1+", "}}"),
+}
+DIGIT_SIZES = (1, 2, 3, 4)
 
 
-def check_zones(ctx, zones, units):
+def digit_text(zone, n):
+    pre, suf = DIGIT_ZONES[zone]
+    return pre + "1" * n + suf
+
+
+def check_zones(ctx, zones, units, digitzones=None):
+    if digitzones is not None and set(digitzones) != set(DIGIT_ZONES):
+        ctx.machinery("digit-zone table of harness/wikitext.py disagrees with WikiTokens.tla: %r"
+                      % sorted(set(digitzones) ^ set(DIGIT_ZONES)))
     if set(zones) != set(ZONES) or set(units) != set(UNITS):
         ctx.machinery("zone / unit tables of harness/wikitext.py disagree with WikiTokens.tla: %r %r"
                       % (sorted(set(zones) ^ set(ZONES)), sorted(set(units) ^ set(UNITS))))
